@@ -51,11 +51,14 @@ def exc_info(e):
 # static mode
 
 def function_codes(code, out):
-    """all function / lambda / generator-expression code objects below `code` (class bodies are walked through)"""
-    for c in code.co_consts:
-        if isinstance(c, types.CodeType):
-            is_function = bool(c.co_flags & 0x2)      # CO_NEWLOCALS: functions, lambdas, comprehensions
-            if is_function:
+    """all function / lambda / generator-expression code objects below `code` that this interpreter can create
+    (class bodies are walked through; code objects only mentioned in a dead interpreter-version branch are left out)"""
+    instrs = list(dis.get_instructions(code))
+    live, _ = reachable(code, instrs)
+    for k, ins in enumerate(instrs):
+        if ins.opname == "LOAD_CONST" and isinstance(ins.argval, types.CodeType) and k in live:
+            c = ins.argval
+            if c.co_flags & 0x2:      # CO_NEWLOCALS: functions, lambdas, comprehensions (not class bodies)
                 out.append(c)
             function_codes(c, out)
 
@@ -69,49 +72,137 @@ def owner_name(code):
     return q
 
 
+_CMP = {"==": lambda a, b: a == b, "!=": lambda a, b: a != b, "<": lambda a, b: a < b, "<=": lambda a, b: a <= b,
+        ">": lambda a, b: a > b, ">=": lambda a, b: a >= b}
+_JUMPS_UNCOND = ("JUMP_FORWARD", "JUMP_BACKWARD", "JUMP_BACKWARD_NO_INTERRUPT")
+_NO_FALLTHROUGH = ("RETURN_VALUE", "RETURN_CONST", "RAISE_VARARGS", "RERAISE")
+
+
+def static_test_value(instrs, k):
+    """value of the test that ends just before the conditional jump `instrs[k]` when it only looks at the
+    interpreter version (`sys.version_info.major == 2`, `sys.version_info >= (3, 0)` ...), else None"""
+    j = k - 1
+    while j >= 0 and instrs[j].opname in ("LOAD_ATTR", "LOAD_CONST", "COMPARE_OP", "BINARY_SUBSCR"):
+        j -= 1
+    if j < 0 or instrs[j].opname != "LOAD_GLOBAL" or instrs[j].argval != "sys" or j == k - 1:
+        return None
+    st = []
+    try:
+        for ins in instrs[j:k]:
+            op = ins.opname
+            if op == "LOAD_GLOBAL":
+                st.append(sys)
+            elif op == "LOAD_ATTR":
+                if ins.argval not in ("version_info", "version", "major", "minor", "micro", "hexversion"):
+                    return None
+                st.append(getattr(st.pop(), ins.argval))
+            elif op == "LOAD_CONST":
+                st.append(ins.argval)
+            elif op == "BINARY_SUBSCR":
+                b = st.pop()
+                st.append(st.pop()[b])
+            elif op == "COMPARE_OP":
+                b = st.pop()
+                a = st.pop()
+                st.append(_CMP[ins.argval.strip()](a, b))
+        if len(st) != 1:
+            return None
+        return bool(st[0])
+    except Exception:
+        return None
+
+
+def reachable(code, instrs):
+    """indices of the instructions that can be executed by this interpreter (branches decided by the interpreter
+    version alone are followed on the live side only)"""
+    idx = {ins.offset: k for k, ins in enumerate(instrs)}
+    try:
+        entries = [(e.start, e.end, e.target) for e in dis.Bytecode(code).exception_entries]
+    except Exception:
+        entries = []
+    seen = set()
+    work = [0]
+    dead_static = 0
+    while True:
+        while work:
+            k = work.pop()
+            if k in seen or k >= len(instrs):
+                continue
+            seen.add(k)
+            ins = instrs[k]
+            op = ins.opname
+            if op in _NO_FALLTHROUGH:
+                continue
+            if op in _JUMPS_UNCOND:
+                work.append(idx.get(ins.argval, len(instrs)))
+                continue
+            if op.startswith("POP_JUMP_IF_") or op in ("FOR_ITER", "SEND"):
+                taken = None
+                if op in ("POP_JUMP_IF_FALSE", "POP_JUMP_IF_TRUE"):
+                    v = static_test_value(instrs, k)
+                    if v is not None:
+                        taken = (not v) if op == "POP_JUMP_IF_FALSE" else v
+                        dead_static += 1
+                if taken is not True:
+                    work.append(k + 1)
+                if taken is not False:
+                    work.append(idx.get(ins.argval, len(instrs)))
+                continue
+            work.append(k + 1)
+        more = [idx[t] for (a, b, t) in entries
+                if t in idx and idx[t] not in seen and any(a <= instrs[k].offset < b for k in seen)]
+        if not more:
+            break
+        work.extend(more)
+    return seen, dead_static
+
+
 def analyse(code, mod, do_imports):
-    """walk the bytecode of one code object in offset order; returns (n_loads, problems)"""
+    """walk the bytecode of one code object in offset order; returns (n_loads, problems).
+
+    Global loads are resolved against the real `__dict__` of the function's module and `builtins`; attribute
+    chains are followed with `getattr` while the value is a lena module.  Import statements of the function are
+    really executed when `do_imports` (the caller has forked), and the locals they bind are followed like
+    globals until the next join point if they were bound in a conditional block."""
     g = vars(mod)
     problems = []
     n_loads = 0
     instrs = list(dis.get_instructions(code))
     leaders = {i.offset for i in instrs if i.is_jump_target}
-    stack = []            # abstract values of import sequences only
+    live, _ = reachable(code, instrs)
+    stack = []            # the values of an import statement in progress
+    consts = []           # the last LOAD_CONST values (level, fromlist)
     implocals = {}        # local name -> object bound by an import statement
-    cond = set()          # import-bound locals that were bound in a conditional block
+    cond = set()          # import-bound locals bound in a conditional block
     in_cond_block = False
-    i = 0
-    consts = []
-    while i < len(instrs):
-        ins = instrs[i]
+    for i, ins in enumerate(instrs):
         op = ins.opname
+        if i not in live:
+            continue
         if ins.offset in leaders:
-            # a join point: what a conditional block has bound is not certain any more
             for n in cond:
                 implocals.pop(n, None)
             cond.clear()
             in_cond_block = True
-        if op in ("POP_JUMP_IF_FALSE", "POP_JUMP_IF_TRUE", "POP_JUMP_IF_NONE", "POP_JUMP_IF_NOT_NONE", "FOR_ITER",
-                  "JUMP_FORWARD", "JUMP_BACKWARD", "JUMP_BACKWARD_NO_INTERRUPT", "SEND"):
+        if op.startswith("POP_JUMP") or op in ("FOR_ITER", "JUMP_FORWARD", "JUMP_BACKWARD",
+                                                "JUMP_BACKWARD_NO_INTERRUPT", "SEND"):
             in_cond_block = True
         if op == "LOAD_CONST":
-            consts.append(ins.argval)
-            consts = consts[-2:]
+            consts = (consts + [ins.argval])[-2:]
+            continue
         if op == "IMPORT_NAME":
-            level, fromlist = (consts + [None, None])[:2] if len(consts) == 2 else (0, None)
-            name = ins.argval
+            level, fromlist = consts if len(consts) == 2 else (0, None)
             obj = None
             if do_imports:
                 try:
-                    obj = builtins.__import__(name, g, {}, fromlist, level or 0)
+                    obj = builtins.__import__(ins.argval, g, {}, fromlist, level or 0)
                 except BaseException as e:      # noqa
                     info = exc_info(e)
-                    if info["undefined_name"] or (isinstance(e, ImportError) and (name.startswith("lena") or level)):
-                        problems.append({"kind": type(e).__name__, "name": name, "msg": info["msg"]})
-                    obj = None
+                    if info["undefined_name"] or ins.argval.startswith("lena") or level:
+                        problems.append({"kind": type(e).__name__, "name": ins.argval, "msg": info["msg"]})
             stack = [obj]
         elif op == "IMPORT_FROM":
-            top = stack[0] if stack else None
+            top = stack[-1] if stack else None
             val = None
             if top is not None:
                 try:
@@ -120,51 +211,56 @@ def analyse(code, mod, do_imports):
                     val = sys.modules.get(getattr(top, "__name__", "?") + "." + ins.argval)
                     if val is None and is_lena_module(top):
                         problems.append({"kind": "ImportError", "name": ins.argval, "on": top.__name__})
-            stack = [top, val]
-        elif op in ("STORE_FAST", "STORE_DEREF") and stack:
-            val = stack.pop()
-            if val is not None:
-                implocals[ins.argval] = val
-                if in_cond_block:
-                    cond.add(ins.argval)
-            if op == "STORE_FAST" and len(stack) == 0:
-                pass
+            stack.append(val)
+        elif op == "SWAP":
+            if len(stack) >= 2:
+                stack[-1], stack[-2] = stack[-2], stack[-1]
         elif op == "POP_TOP":
             if stack:
                 stack.pop()
-        elif op in ("LOAD_GLOBAL", "LOAD_NAME", "LOAD_FAST", "LOAD_DEREF", "LOAD_FAST_CHECK"):
-            name = ins.argval
-            if op in ("LOAD_GLOBAL", "LOAD_NAME"):
-                n_loads += 1
-                if name in g:
-                    val, found = g[name], True
-                elif hasattr(builtins, name):
-                    val, found = getattr(builtins, name), True
+        elif op in ("STORE_FAST", "STORE_DEREF", "STORE_NAME", "STORE_GLOBAL"):
+            if stack:
+                val = stack.pop()
+                if op in ("STORE_FAST", "STORE_DEREF"):
+                    if val is not None:
+                        implocals[ins.argval] = val
+                        if in_cond_block:
+                            cond.add(ins.argval)
+                    else:
+                        implocals.pop(ins.argval, None)
+            elif op in ("STORE_FAST", "STORE_DEREF"):
+                implocals.pop(ins.argval, None)       # re-bound by something that is not an import
+        else:
+            stack = []
+            if op in ("LOAD_GLOBAL", "LOAD_NAME", "LOAD_FAST", "LOAD_DEREF", "LOAD_FAST_CHECK"):
+                name = ins.argval
+                if op in ("LOAD_GLOBAL", "LOAD_NAME"):
+                    n_loads += 1
+                    if name in g:
+                        val, found = g[name], True
+                    elif hasattr(builtins, name):
+                        val, found = getattr(builtins, name), True
+                    else:
+                        val, found = None, False
+                        problems.append({"kind": "NameError", "name": name})
                 else:
-                    val, found = None, False
-                    problems.append({"kind": "NameError", "name": name})
-            else:
-                found = name in implocals
-                val = implocals.get(name)
-            # attribute chain on a lena module
-            j = i + 1
-            root = name
-            while found and is_lena_module(val) and j < len(instrs) and instrs[j].opname in ("LOAD_ATTR", "LOAD_METHOD"):
-                a = instrs[j].argval
-                if not hasattr(val, a):
-                    problems.append({"kind": "AttributeError", "name": a, "on": val.__name__, "root": root})
-                    break
-                val = getattr(val, a)
-                j += 1
-            if op not in ("LOAD_GLOBAL", "LOAD_NAME") and found:
-                n_loads += 1
-        elif op in ("DELETE_GLOBAL",):
-            if ins.argval not in g:
-                problems.append({"kind": "NameError", "name": ins.argval})
-        if op not in ("LOAD_CONST", "IMPORT_NAME", "IMPORT_FROM", "STORE_FAST", "STORE_DEREF", "POP_TOP", "RESUME",
-                      "NOP", "EXTENDED_ARG", "CACHE", "PUSH_NULL"):
-            stack = stack if op.startswith("LOAD_") and False else ([] if op not in ("LOAD_GLOBAL", "LOAD_FAST") else stack)
-        i += 1
+                    found = name in implocals
+                    val = implocals.get(name)
+                    if found:
+                        n_loads += 1
+                j = i + 1
+                while found and is_lena_module(val) and j < len(instrs) and instrs[j].opname in ("LOAD_ATTR", "LOAD_METHOD"):
+                    a = instrs[j].argval
+                    if not hasattr(val, a):
+                        problems.append({"kind": "AttributeError", "name": a, "on": val.__name__, "root": name})
+                        break
+                    val = getattr(val, a)
+                    j += 1
+            elif op == "DELETE_GLOBAL":
+                if ins.argval not in g:
+                    problems.append({"kind": "NameError", "name": ins.argval})
+            elif op == "DELETE_FAST":
+                implocals.pop(ins.argval, None)
     return n_loads, problems
 
 
